@@ -107,3 +107,23 @@ PROPS = {
     },
 }
 PROPS["C34"]["components"] = PROPS["C29"]["components"]
+PROPS["C33"] = {
+    "world": "BL",
+    "level": "fault_enumeration",
+    "technique": "deterministic simulation: every bucket read inside a compactor meta sync failed in turn; operation-log oracle on the rest of that iteration",
+    "design_ref": "DESIGN.md §6 C33",
+    "quick": {"runs": 48, "seconds": 70},
+    "thorough": {"runs": 1500, "seconds": 1200},
+    "rule": "one evaluation = one generated deployment (as C29) executed fault-free to enumerate the bucket reads performed inside the compactor's "
+            "meta syncs (listing, exists/get of meta.json, deletion-mark.json, no-compact-mark.json), then re-executed with the k-th such read failing "
+            "(quick: seeded sample of 16 reads; thorough: up to 600 = all). Oracle: the operation log of the compactor iteration in which the read "
+            "failed contains no upload or delete that took effect after the failure. distinct = distinct event-log hash; non-trivial = the fault-free "
+            "execution planned at least one compaction (so there was something destructive to withhold).",
+    "components": PROPS["C29"]["components"],
+    "assumptions": ["a read failure is a transient error returned by the bucket; PUT is atomic so markers cannot be torn",
+                    "'iteration' = one pass of cmd/thanos' compactMainFn (compaction loop, sync, retention, partial-upload cleanup), re-created by the harness",
+                    "reads while downloading blocks for compaction are not sync reads and are not failed here"],
+    "text": "Every sync read of each generated deployment's fault-free execution is failed in turn (all of them in the thorough tier); deployments and schedules are sampled.",
+    "note": "The compactor's periodic cleanup goroutine of cmd/thanos is not modelled as a concurrent actor; cleanup runs at the end of each iteration as in compactMainFn.",
+}
+
